@@ -139,13 +139,16 @@ pub fn mutate(rng: &mut Rng, s: &[u8], edits: usize, alpha: &[u8]) -> Vec<u8> {
     v
 }
 
-/// random text of about n symbols with approximate and partial copies of p planted
-pub fn planted(rng: &mut Rng, p: &[u8], n: usize, alpha: &[u8], talpha: &[u8], max_edits: usize) -> Vec<u8> {
+/// random text of about n symbols with approximate and partial copies of p planted.
+/// wb > 0 is the block width of the matcher under test: some copies then carry all their
+/// edits in the leading blocks (substitutions left of a block boundary, the rest exact), the
+/// situation in which the band-limited block machine has to re-activate blocks it dropped.
+pub fn planted_w(rng: &mut Rng, p: &[u8], n: usize, alpha: &[u8], talpha: &[u8], max_edits: usize, wb: usize) -> Vec<u8> {
     let mut t: Vec<u8> = vec![];
     while t.len() < n {
         let gap = rng.below(12) as usize;
         t.extend(rng.seq(gap, talpha));
-        match rng.below(4) {
+        match rng.below(if wb > 0 && p.len() > wb { 6 } else { 4 }) {
             0 => {
                 // prefix or suffix of the pattern (activates leading blocks only)
                 let cut = rng.below(p.len() as u64 + 1) as usize;
@@ -156,6 +159,20 @@ pub fn planted(rng: &mut Rng, p: &[u8], n: usize, alpha: &[u8], talpha: &[u8], m
                 }
             }
             1 => t.extend_from_slice(p),
+            4 | 5 => {
+                // edits only left of a block boundary (+0 / +1 rows), exact behind it
+                let blocks = (p.len() + wb - 1) / wb;
+                let b = 1 + rng.below((blocks - 1) as u64) as usize;
+                let cut = (b * wb + rng.below(2) as usize).min(p.len());
+                let mut head = p[..cut].to_vec();
+                let e = 1 + rng.below(max_edits.max(1) as u64) as usize;
+                for _ in 0..e {
+                    let i = rng.below(cut as u64) as usize;
+                    head[i] = *rng.pick(alpha);
+                }
+                t.extend(head);
+                t.extend_from_slice(&p[cut..]);
+            }
             _ => {
                 let e = rng.below(max_edits as u64 + 1) as usize;
                 t.extend(mutate(rng, p, e, alpha));
@@ -164,6 +181,10 @@ pub fn planted(rng: &mut Rng, p: &[u8], n: usize, alpha: &[u8], talpha: &[u8], m
     }
     t.truncate(n);
     t
+}
+
+pub fn planted(rng: &mut Rng, p: &[u8], n: usize, alpha: &[u8], talpha: &[u8], max_edits: usize) -> Vec<u8> {
+    planted_w(rng, p, n, alpha, talpha, max_edits, 0)
 }
 
 /// pattern shapes: unary, single odd symbol, periodic, random
